@@ -195,6 +195,7 @@ func init() {
 		argv{kind: "arr", goTyped: true, expr: "rc.twice", elems: []argv{{kind: "map"}, {kind: "map"}}},
 		argv{kind: "aliased", expr: "rc.inl", str: "1 2 3 4"},
 		argv{kind: "aliased", expr: "rc.selfp"},
+		argv{kind: "aliased", expr: "rc.hid", str: "3"}, // a struct with an unexported pointer field: formatted like any value
 		argv{kind: "num", num: "255.9", expr: "(255.9)"},
 		argv{kind: "num", num: "256", expr: "(256)"},
 		argv{kind: "num", num: "-0.9", expr: "(-0.9)"},
@@ -216,6 +217,13 @@ func c11Inline() []c11Buf {
 	l[0].Items = l[0].Inline[:2]
 	return l
 }
+
+type c11Hidden struct {
+	p *int
+	N int
+}
+
+var c11HiddenTarget = 8
 
 type c11Self struct {
 	A int
@@ -720,7 +728,7 @@ func judgeCall(c CallCase) *eng.Fail {
 	invocations = invocations[:0]
 	data := map[string]interface{}{"host": makeHost(c.Fixed, c.Tail, c.Ctx, c.Ret), "mp": c11Map, "tm": c11Time,
 		"rc": map[string]interface{}{"nilsl": []string(nil), "nilany": []interface{}(nil), "ints": []int{65, 66}, "strs": []string{"p", "q"}, "twice": []map[string]interface{}{c11Map, c11Map},
-			"wide": []int{300, 1}, "i32s": []int32{72, 105}, "f64s": []float64{1.5, -2.5}, "anys": []interface{}{4, 7.5, int64(9007199254740993)}, "inl": c11Inline(), "selfp": c11SelfPtr()}, "np": (*int)(nil), "rcx": c11RC, "tml": c11TimeLocal,
+			"wide": []int{300, 1}, "i32s": []int32{72, 105}, "f64s": []float64{1.5, -2.5}, "anys": []interface{}{4, 7.5, int64(9007199254740993)}, "inl": c11Inline(), "selfp": c11SelfPtr(), "hid": c11Hidden{p: &c11HiddenTarget, N: 3}}, "np": (*int)(nil), "rcx": c11RC, "tml": c11TimeLocal,
 		"g": map[string]interface{}{"n16": int16(300), "u8": uint8(200), "u64": uint64(1) << 63, "i8": int8(-1), "dur": time.Duration(1500), "cel": c11Celsius(2.5), "celbig": c11Celsius(1e30), "u32": uint32(70000)}}
 	r := formula.NewRunner()
 	r.SetThis(data)
